@@ -26,8 +26,10 @@ from common.coqlit import Err
 from vclock import VirtualClock
 
 ID = 'C10'
-KERNELS = []
-SHARD = 60
+KERNELS = ['Gen/DStreamStep.v: step_guard_DStream', 'Gen/DStreamStep.v: step_guard_TransformedDStream',
+           'Gen/DStreamStep.v: step_guard_TransformedWithDStream', 'Gen/DStreamStep.v: step_guard_CogroupedDStream',
+           'Gen/DStreamStep.v: queue_get_branch', 'Gen/Parallelize.v: par_take', 'Gen/Parallelize.v: par_single']
+SHARD = 40
 VERIF = os.environ.get('VERIF_ROOT', '/verif')
 
 RULE = ('cases (program, history): typed random stream DAGs (1-3 queue/file sources, up to 12 API calls, depth <= 4 '
